@@ -216,6 +216,8 @@ def holder(draw, tier, kind, min_order=1, max_order=None, shape=None, vkind=None
 def build(h):
     """pyttb object of a holder case, in the state and with the storage dtype the case asks for."""
     k = h["holder"]
+    if h.get("hpres") and k in ("tensor", "sptensor", "ktensor", "ttensor"):
+        return build_presented(h)
     if k == "tensor":
         A = gen.arr_F(h["shape"], h["data"]).astype(np.dtype(h.get("dtype") or "float64"))
         return ST.build_dense(A, h.get("state"))
@@ -373,7 +375,7 @@ def object_labels(*objs) -> List[str]:
 
 def holder_labels(h) -> List[str]:
     k = h["holder"]
-    out = [k] + state_label(h)
+    out = [k] + state_label(h) + hpres_labels(h)
     if k == "sptensor":
         out += ["nnz0" if not h["subs"] else ("nnz1" if len(h["subs"]) == 1 else "nnz>1"), "stored-" + h["order"]]
     if k == "tensor":
@@ -716,3 +718,231 @@ def compare(ctx, got: np.ndarray, expect: np.ndarray, bound: np.ndarray, nterms:
     else:
         ok = ref.same_bound(got, expect, np.broadcast_to(bound, expect.shape), nterms)
     return ctx.check(ok, clause, ref.diff_info(got, expect) + " " + extra)
+
+
+# --------------------------------------------------------------------------
+# (round 4, class 11) how the caller presents valid arguments
+# --------------------------------------------------------------------------
+# case["pres"] = dict(dims=<how mode numbers / mode lists are typed>, mult=[<how the k-th array operand is stored>],
+#                     container="list"|"tuple", env=None|"debug-logging")
+# The bodies hand what they are about to pass through ``present_dims`` / ``present_array`` / ``present_seq``; a case
+# without "pres" (every case of the earlier rounds) is passed on untouched.  Values are never changed by a
+# presentation: the strategies of _c02_present round the values of an operand shown as float32 to float32 *in the
+# case*, so that the cast is lossless and the reference (computed from the case in float64) is the reference of what
+# is passed.  What changes is the bound: with a single-precision operand the kernels may legitimately work in single
+# precision (``pres_nterms``: the rounding unit is 2**29 times the double one), and nothing is compared exactly.
+
+DIM_DTYPES = ("int32", "uint8", "uint16", "uint64", "int64", "int16", "uint32")
+DIM_FORMS = DIM_DTYPES + ("tuple", "nplist-int32", "nplist-uint8", "nplist-int64", "pylist")
+MULT_FORMS = ("plain", "readonly", "float32", "negstride", "F", "readonly-F", "float32-strided", "widestride")
+
+
+def present_dims(case, d):
+    """the mode number / list of mode numbers ``d`` typed as the presentation says (None stays None)"""
+    how = (case.get("pres") or {}).get("dims")
+    if how is None or d is None:
+        return d
+    scalar = isinstance(d, (int, np.integer))
+    if how in DIM_DTYPES:
+        return np.dtype(how).type(d) if scalar else np.array([int(x) for x in d], dtype=np.dtype(how))
+    if scalar:
+        return int(d) if how in ("tuple", "pylist") else np.dtype(how.split("-")[1]).type(d)
+    if how == "tuple":
+        return tuple(int(x) for x in d)
+    if how == "pylist":
+        return [int(x) for x in d]
+    t = np.dtype(how.split("-")[1]).type
+    return [t(x) for x in d]
+
+
+def present_array(case, a, k=0):
+    """the array operand ``a`` (k-th of the call) stored as the presentation says; sparse matrices, tensors and other
+    non-ndarray operands are passed on as they are"""
+    forms = (case.get("pres") or {}).get("mult")
+    if not forms or not isinstance(a, np.ndarray):
+        return a
+    how = forms[k % len(forms)]
+    if how == "plain":
+        return a
+    if how.startswith("float32"):
+        a = a.astype(np.float32)
+        how = how[8:] or "plain"
+    if how in ("F", "readonly-F"):
+        a = np.asfortranarray(a)
+    if how == "negstride" and a.ndim >= 1 and a.size:
+        rev = np.ascontiguousarray(a[(slice(None, None, -1),) * a.ndim])
+        a = rev[(slice(None, None, -1),) * a.ndim]  # same values, every stride negative
+    if how in ("strided", "widestride") and a.ndim >= 1:
+        big = np.full(tuple(3 * n for n in a.shape), 5, dtype=a.dtype)
+        view = big[tuple(slice(1, 3 * n, 3) for n in a.shape)]
+        view[...] = a
+        a = view
+    if how.startswith("readonly"):
+        a = a.copy(order="K")
+        a.setflags(write=False)
+    return a
+
+
+def present_seq(case, xs):
+    """a list of array operands: every entry through present_array, the container as the presentation says"""
+    p = case.get("pres") or {}
+    if not p or not isinstance(xs, (list, tuple)):
+        return present_array(case, xs)
+    out = [present_array(case, x, k) for k, x in enumerate(xs)]
+    return tuple(out) if p.get("container") == "tuple" else out
+
+
+def positional(case, kw, names):
+    """(round 4) optional arguments passed positionally in their documented order ``names`` when the presentation says
+    so: (args, kwargs) to splat after the first argument"""
+    if not (case.get("pres") or {}).get("positional"):
+        return (), kw
+    last = max((i for i, n in enumerate(names) if n in kw), default=-1)
+    return tuple(kw.get(n) for n in names[:last + 1]), {k: v for k, v in kw.items() if k not in names}
+
+
+def present_call(case, arg, kw):
+    """(multiplicand argument, keyword arguments) of a ttv / ttm call in the case's presentation"""
+    if not case.get("pres"):
+        return arg, kw
+    return present_seq(case, arg), {k: (present_dims(case, v) if k in ("dims", "exclude_dims") else v) for k, v in kw.items()}
+
+
+def pres_single(case) -> bool:
+    return any(f.startswith("float32") for f in ((case.get("pres") or {}).get("mult") or [])) or bool(
+        (case.get("pres") or {}).get("data32"))
+
+
+def pres_nterms(case, nterms):
+    """rounding-error count in units of the double-precision eps: 2**29 times more when an operand is single"""
+    return nterms * 2**29 if pres_single(case) else nterms
+
+
+def pres_exact(case, exact) -> bool:
+    return bool(exact) and not pres_single(case)
+
+
+def pres_labels(case) -> List[str]:
+    p = case.get("pres")
+    if not p:
+        return []
+    return ["pres-dims-" + str(p.get("dims")), "pres-container-" + str(p.get("container")), "pres-env-" + str(p.get("env")),
+            "pres-positional" if p.get("positional") else "pres-keywords", *(["pres-U-nocopy"] if p.get("U_nocopy") else []),
+            *sorted({"pres-mult-" + f for f in (p.get("mult") or ["plain"])})]
+
+
+# ---- the receiver / second tensor as other callers build it (holder["hpres"]) ---------------------------------------------
+SHAPE_FORMS = ("uint8", "tuple-int32", "int32", "uint64", "tuple-uint8", "list", "uint16", "tuple-uint64", "int64", None)
+SUBS_DTYPES = ("uint8", "int32", "uint64", "uint16", "int32", "uint32", "int16", "int64")
+
+
+def typed_shape(shape, how):
+    if how is None:
+        return tuple(int(n) for n in shape)
+    if how == "list":
+        return [int(n) for n in shape]
+    if how.startswith("tuple-"):
+        t = np.dtype(how[6:]).type
+        return tuple(t(n) for n in shape)
+    return np.array([int(n) for n in shape], dtype=np.dtype(how))
+
+
+@st.composite
+def holder_presentation(draw, kind):
+    """dict(f32 = data in single precision, subs = dtype of the subscript array, shape = how the shape is typed,
+    readonly = the buffers handed over are read-only and taken without a copy)"""
+    hp = dict(f32=draw(st.sampled_from([False, False, True])), shape=draw(st.sampled_from(SHAPE_FORMS)), readonly=draw(st.sampled_from([True, False])))
+    if kind == "sptensor":
+        hp["subs"] = draw(st.sampled_from(SUBS_DTYPES))
+    return hp
+
+
+def build_presented(h):
+    """a dense / sparse holder built straight from the caller's arrays in the presentation ``h["hpres"]`` (no derived
+    state, no integer storage dtype: those are the business of the round-2 cells)"""
+    hp = h["hpres"]
+    if h["holder"] in ("ktensor", "ttensor"):
+        return _build_presented_structured(h)
+    shape = typed_shape(h["shape"], hp.get("shape"))
+    vdt = np.float32 if hp.get("f32") else np.float64
+    if h["holder"] == "tensor":
+        A = np.asfortranarray(gen.arr_F(h["shape"], h["data"]).astype(vdt))
+        if hp.get("readonly"):
+            A.setflags(write=False)
+            return ttb.tensor(A, shape, copy=False)
+        return ttb.tensor(A, shape)
+    n = len(h["subs"])
+    if n == 0:
+        return ttb.sptensor(shape=shape)
+    subs = np.array(h["subs"], dtype=np.dtype(hp.get("subs") or "int64")).reshape(n, len(h["shape"]))
+    vals = np.array(h["vals"], dtype=vdt).reshape(-1, 1)
+    if hp.get("readonly"):
+        subs.setflags(write=False)
+        vals.setflags(write=False)
+        return ttb.sptensor(subs, vals, shape, copy=False)
+    return ttb.sptensor(subs, vals, shape)
+
+
+def _readonly_F(a):
+    a = np.asfortranarray(np.array(a, dtype=float))
+    a.setflags(write=False)
+    return a
+
+
+def _build_presented_structured(h):
+    """Kruskal / Tucker holder whose parameter arrays are the caller's own read-only F-ordered arrays, taken without a
+    copy (``copy=False``), the factor list as a list or a tuple"""
+    hp = h["hpres"]
+    if h["holder"] == "ktensor":
+        w, fm = _kruskal_arrays(h)
+        fm = [_readonly_F(m) for m in fm]
+        return ttb.ktensor(fm if hp.get("container") != "tuple" else tuple(fm), _readonly_F(w), copy=False)
+    core, fm = _tucker_arrays(h)
+    fm = [_readonly_F(m) for m in fm]
+    if h.get("sparse_core"):
+        sc = gen.sparse_case_from_dense(core)
+        c = build_presented(dict(holder="sptensor", shape=h["cshape"], subs=sc["subs"], vals=sc["vals"], hpres=hp["core"]))
+    else:
+        c = build_presented(dict(holder="tensor", shape=h["cshape"], data=[float(x) for x in core.ravel(order="F")],
+                                 hpres=hp["core"]))
+    return ttb.ttensor(c, fm if hp.get("container") != "tuple" else tuple(fm), copy=False)
+
+
+def present_holder(draw, h):
+    """the holder dict ``h`` (dense, sparse, or a sum with such parts) given a drawn presentation; returns True when data
+    went to single precision (values rounded in the dict)"""
+    if h["holder"] == "sumtensor":
+        return any([present_holder(draw, p) for p in h["parts"]])
+    if h["holder"] in ("ktensor", "ttensor"):
+        for k in ("state", "cdtype", "fdtypes"):
+            h.pop(k, None)
+        h["hpres"] = dict(readonly=True, container=draw(st.sampled_from(["list", "tuple"])))
+        if h["holder"] == "ttensor":
+            core = draw(holder_presentation("sptensor" if h.get("sparse_core") else "tensor"))
+            core["f32"] = False
+            core["readonly"] = True
+            h["hpres"]["core"] = core
+        return False
+    if h["holder"] not in ("tensor", "sptensor"):
+        return False
+    hp = draw(holder_presentation(h["holder"]))
+    h.pop("state", None)
+    h.pop("dtype", None)
+    h["hpres"] = hp
+    if hp["f32"]:
+        key = "data" if h["holder"] == "tensor" else "vals"
+        h[key] = [float(np.float32(v)) for v in h[key]]
+    return bool(hp["f32"])
+
+
+def hpres_labels(h) -> List[str]:
+    if h["holder"] == "sumtensor":
+        return sorted({x for p in h["parts"] for x in hpres_labels(p)})
+    hp = h.get("hpres")
+    if not hp:
+        return []
+    if h["holder"] in ("ktensor", "ttensor"):
+        return ["hpres-" + h["holder"], "hpres-readonly-nocopy", "hpres-factors-" + str(hp.get("container"))]
+    return ["hpres-" + h["holder"], "hpres-f32" if hp.get("f32") else "hpres-f64", "hpres-shape-" + str(hp.get("shape")),
+            "hpres-readonly-nocopy" if hp.get("readonly") else "hpres-copied"] + (
+                ["hpres-subs-" + hp["subs"]] if hp.get("subs") and h.get("subs") else [])
